@@ -174,6 +174,11 @@ func c20MutatorState() (*HashSlotTable, int) {
 	h := zzsym.Choice("H", c20MaxH()+1)
 	t, _ := c20Table(h, false)
 	c20AddMigrations(t, h)
+	// one arbitrary earlier step of the history: a reassignment issued while migrations are active
+	// (e.g. the migrating hash slot already handed to its target) is a reachable pre-state too
+	if zzsym.Choice("pre.reassign", 2) == 1 {
+		t.Reassign(zzsym.U16("pre.hashslot"), c20SlotID("pre.slot", 1, c20MaxSlot()+1))
+	}
 	return t, h
 }
 
